@@ -3,7 +3,7 @@
     Pinned by props/C08.statements. *)
 From Coq Require Export ZArith List Bool String Permutation.
 From GV Require Export Query.ChainSpec Query.RunPat.
-From GV Require Export Query.ProofsVle Query.ProofsPattern.
+From GV Require Export Query.ProofsVle Query.ProofsPattern Query.ProofsChainVar.
 Open Scope Z_scope.
 
 Theorem chain_operational : forall st p, single_hops p = true -> pat_fresh p = true ->
@@ -24,6 +24,50 @@ Theorem chain_bindings : forall st p,
   exists t, sem_ops st (chain_plan p) = Ok t /\ Permutation (tbl_envs t) (bindings st p).
 Proof. exact chain_bindings_l. Qed.
 Print Assumptions chain_bindings.
+
+Theorem plain_answer_directed : forall st q,
+  store_ok st -> single_hops (q_pat q) = true -> single_labels (q_pat q) = true -> pat_fresh (q_pat q) = true ->
+  no_type_case st (q_pat q) = true -> directed (q_pat q) = true ->
+  plain_core q = true -> q_order q = nil ->
+  plan_rows st (cypher_plan_of q) = answer st q.
+Proof. exact plain_answer_directed_l. Qed.
+Print Assumptions plain_answer_directed.
+
+Theorem plain_answer_bag : forall st q,
+  store_ok st -> single_hops (q_pat q) = true -> single_labels (q_pat q) = true -> pat_fresh (q_pat q) = true ->
+  no_type_case st (q_pat q) = true -> no_both_selfloop st (q_pat q) = true ->
+  plain_core q = true -> q_order q = nil -> q_skip q = None -> q_limit q = None ->
+  exists rs rs', plan_rows st (cypher_plan_of q) = Ok rs /\ answer st q = Ok rs' /\ Permutation rs rs'.
+Proof. exact plain_answer_bag_l. Qed.
+Print Assumptions plain_answer_bag.
+
+Theorem gql_same_plan : forall q, q_order q = nil -> q_skip q = None -> q_limit q = None -> gql_plan_of q = cypher_plan_of q.
+Proof. exact gql_plan_plain. Qed.
+Print Assumptions gql_same_plan.
+
+Theorem chain_operational_any : forall st p, pat_fresh p = true ->
+  exists t, sem_ops st (chain_plan p) = Ok t /\ wfc t /\
+            cols t = np_var (p_start p) :: flat_map (fun h => edge_col (h_evar h) :: np_var (h_to h) :: nil) (p_hops p) /\
+            tbl_envs t = obindings_g st p.
+Proof. exact chain_obindings_g. Qed.
+Print Assumptions chain_operational_any.
+
+Theorem chain_bindings_var : forall st p,
+  store_ok st -> edges_live st -> single_labels p = true -> pat_fresh p = true ->
+  no_type_case st p = true -> no_both_selfloop st p = true ->
+  bounded_hops p = true -> var_hops_anonymous p = true ->
+  exists t, sem_ops st (chain_plan p) = Ok t /\ Permutation (tbl_envs t) (bindings st p).
+Proof. exact chain_bindings_var_l. Qed.
+Print Assumptions chain_bindings_var.
+
+Theorem plain_answer_var : forall st q,
+  store_ok st -> edges_live st -> single_labels (q_pat q) = true -> pat_fresh (q_pat q) = true ->
+  no_type_case st (q_pat q) = true -> no_both_selfloop st (q_pat q) = true ->
+  bounded_hops (q_pat q) = true -> var_hops_anonymous (q_pat q) = true ->
+  plain_core q = true -> q_order q = nil -> q_skip q = None -> q_limit q = None ->
+  exists rs rs', plan_rows st (cypher_plan_of q) = Ok rs /\ answer st q = Ok rs' /\ Permutation rs rs'.
+Proof. exact plain_answer_var_l. Qed.
+Print Assumptions plain_answer_var.
 
 Theorem var_length_walks : forall st ci d ty mn mx s,
   Permutation (vle_from st ci d ty mn mx s)
@@ -96,3 +140,36 @@ Theorem typed_result_refuted : exists st q,
   k13_typed_result st q = true /\ plan_rows st (gql_plan_of q) <> answer st q /\ plan_rows st (cypher_plan_of q) <> answer st q.
 Proof. exact typed_result_refuted_l. Qed.
 Print Assumptions typed_result_refuted.
+
+(** non-vacuity: the hypotheses of the positive theorems are met by a graph with parallel edges and
+    a two-hop query with WHERE, SKIP and LIMIT that returns rows *)
+Import ListNotations.
+Local Open Scope string_scope.
+Definition nv_st : store := st_of
+  [nd 0 ["A"] [("u", VInt 100); ("x", VInt 1)]; nd 1 ["A"; "B"] [("u", VInt 101); ("x", VFlt 3 2)]; nd 2 ["B"] [("u", VInt 102)]]
+  [ed 0 0 1 "R" [("eu", VInt 500); ("w", VInt 1)]; ed 1 0 1 "R" [("eu", VInt 501); ("w", VInt 2)]; ed 2 1 2 "S" [("eu", VInt 502)];
+   ed 3 2 2 "S" [("eu", VInt 503)]].
+Definition nv_q : query :=
+  mkQ (mkPat (mkNP "a" ["A"]) [hop1 Out (Some "R") (Some "r") "b"; mkHop Out (Some "S") None HOne (mkNP "c" ["B"])])
+      (Some (ECmp OGt (EProp "r" "w") (ELit (VInt 0)))) (RPlain [EVar "a"; EProp "r" "w"; EProp "c" "u"] false) [] (Some 1%nat) (Some 5%nat).
+Example nv_store_ok : store_ok nv_st.
+Proof. split; cbn; repeat constructor; cbn; intuition discriminate. Qed.
+Example nv_hyps :
+  single_hops (q_pat nv_q) = true /\ single_labels (q_pat nv_q) = true /\ pat_fresh (q_pat nv_q) = true /\
+  no_type_case nv_st (q_pat nv_q) = true /\ directed (q_pat nv_q) = true /\ no_both_selfloop nv_st (q_pat nv_q) = true /\
+  plain_core nv_q = true /\ q_order nv_q = [].
+Proof. vm_compute. repeat split. Qed.
+Example nv_rows : answer nv_st nv_q = Ok [[VInt 0; VInt 2; VInt 102]] /\ List.length (bindings nv_st (q_pat nv_q)) = 2%nat.
+Proof. vm_compute. split; reflexivity. Qed.
+
+Definition nv_var_q : query :=
+  mkQ (mkPat (mkNP "a" []) [mkHop Out None None (HVar 1 (Some 2%nat)) (mkNP "b" ["B"])])
+      None (RPlain [EVar "a"; EProp "b" "u"] false) [] None None.
+Example nv_var_hyps :
+  edges_live nv_st /\ bounded_hops (q_pat nv_var_q) = true /\ var_hops_anonymous (q_pat nv_var_q) = true /\
+  pat_fresh (q_pat nv_var_q) = true /\ plain_core nv_var_q = true /\
+  List.length (bindings nv_st (q_pat nv_var_q)) = 8%nat.
+Proof.
+  split; [|vm_compute; repeat split].
+  intros e He. cbn in He. repeat (destruct He as [<-|He]; [split; reflexivity|]). destruct He.
+Qed.
